@@ -73,6 +73,28 @@ def execute_guarded(engine, scenario, wall=SCEN_WALL_S):
     return res
 
 
+_WORKER_HISTORY = []        # scenario indices this worker process has executed so far (process history, for C10)
+
+
+def make_scenario(engine, prop, tier, seed, idx):
+    scen = engine.generate(scen_rng(seed, engine, prop, idx), prop, tier)
+    scen['property'] = prop
+    scen['index'] = idx
+    scen['seed'] = seed
+    return scen
+
+
+def fresh_digest(prop, tier, seed, idx, timeout=300):
+    """Digest of one scenario executed as the first thing in a fresh interpreter."""
+    env = dict(os.environ, VERIF_SEED=str(seed))
+    p = subprocess.run([os.path.join(ROOT, 'check'), prop, '--tier', tier, '--fresh-digest', str(idx)],
+                       capture_output=True, text=True, env=env, timeout=timeout)
+    for line in p.stdout.splitlines():
+        if line.startswith('FRESH-DIGEST '):
+            return line.split()[1]
+    return 'error:' + (p.stdout + p.stderr)[-300:]
+
+
 def _work(args):
     """Worker task: a list of scenario indices."""
     prop, tier, seed, indices, keep_samples = args
@@ -80,6 +102,8 @@ def _work(args):
     faulthandler.enable()
     out = []
     for idx in indices:
+        hist_before = list(_WORKER_HISTORY)
+        _WORKER_HISTORY.append(idx)
         scen = engine.generate(scen_rng(seed, engine, prop, idx), prop, tier)
         scen['property'] = prop
         scen['index'] = idx
@@ -96,6 +120,7 @@ def _work(args):
             'interleavings': res['interleavings'],
             'violations': res['violations'],
             'harness': res.get('harness'),
+            'history_before': hist_before,
         }
         if res['violations'] or res.get('harness') or idx in keep_samples:
             item['scenario'] = scen
@@ -309,6 +334,31 @@ def run_check(prop, tier):
     for idx, it in redo.items():
         if idx in results and results[idx]['digest'] != it['digest']:
             nondet.append(idx)
+    fresh_checked = 0
+    if getattr(engine, 'PROCESS_HISTORY', False) and not harness:
+        # results must not depend on what the process did before: the digest obtained in a worker that had already executed
+        # other scenarios is compared with the digest of the same scenario run first in a fresh interpreter
+        cand = [i for i in sorted(results) if results[i]['history_before'] and not results[i]['harness'] and not results[i]['violations']]
+        k_fresh = 16 if tier == 'quick' else 160
+        step = max(1, len(cand) // k_fresh)
+        pick = (nondet + cand[::step])[:k_fresh + len(nondet)]
+        import concurrent.futures as _cf
+        with _cf.ThreadPoolExecutor(max_workers=jobs) as tp:
+            futs = {i: tp.submit(fresh_digest, prop, tier, seed, i) for i in pick}
+            for i, fu in futs.items():
+                fd = fu.result()
+                fresh_checked += 1
+                if fd.startswith('error:'):
+                    harness.append('HARNESS-ERROR fresh digest of scenario %d: %s' % (i, fd))
+                elif fd != results[i]['digest']:
+                    scen_ph = {'engine': engine.NAME, 'mode': 'process-history', 'property': prop, 'seed': seed, 'tier': tier,
+                               'prefix': results[i]['history_before'], 'target': i}
+                    results[i]['scenario'] = scen_ph
+                    viols.append((i, {'property': prop, 'oracle': 'process-history-dependence',
+                                      'detail': 'scenario %d gives digest %s when it is the first thing a fresh interpreter does, but %s in a process that had '
+                                                'executed %d other scenarios before' % (i, fd, results[i]['digest'], len(results[i]['history_before']))}))
+        nondet = [i for i in nondet if i not in pick]
+        stats['fault.process_history_before_scenario'] = fresh_checked
     if nondet:
         harness.append('HARNESS-NONDETERMINISM scenarios %s gave different digests in two workers' % nondet[:10])
 
